@@ -30,7 +30,7 @@ def case(cid, rng, cfg):
     from skmatter.linear_model import Ridge2FoldCV
     for _ in range(50):
         n, m = int(rng.integers(6, 11)), int(rng.integers(2, 5))
-        kind = ["full", "full", "rankdef", "dupcol", "wide"][int(rng.integers(5))]
+        kind = ["full", "full", "rankdef", "dupcol", "wide", "zerocol", "onehot"][int(rng.integers(7))]
         if kind == "wide":
             n, m = int(rng.integers(6, 8)), 4
         Xi = rng.integers(-6, 7, size=(n, m))
@@ -38,6 +38,11 @@ def case(cid, rng, cfg):
             Xi[:, -1] = Xi[:, 0] + Xi[:, 1]
         if kind == "dupcol":
             Xi[:, -1] = Xi[:, 0]
+        if kind == "zerocol":
+            Xi[:, int(rng.integers(m))] = 0                      # a feature without any content
+        if kind == "onehot":
+            Xi = np.zeros((n, m), dtype=int)
+            Xi[np.arange(n), rng.integers(0, m, size=n)] = rng.integers(1, 7, size=n)
         p = int(rng.integers(1, 3))
         W0 = rng.integers(-2, 3, size=(m, p))
         Yi = np.clip(Xi @ W0 // 2 + rng.integers(-2, 3, size=(n, p)), -12, 12)
